@@ -104,6 +104,13 @@ def loops_of(node):
     return ls
 
 
+def comps_of(node):
+    """list comprehensions / generator expressions of a function in source order"""
+    cs = [n for n in ast.walk(node) if isinstance(n, (ast.ListComp, ast.GeneratorExp))]
+    cs.sort(key=lambda n: (n.lineno, n.col_offset))
+    return cs
+
+
 def module_name(relpath):
     assert relpath.endswith('.py')
     return relpath[:-3].replace('/', '.')
